@@ -20,12 +20,15 @@ MANIFEST = dict(
     category="proof",
     text="proof (partial). Machine-checked (Coq): (1) C15_string_escape — for ALL strings, the echo's escape_numbat_string "
          "followed by the parser's strip_and_escape is the identity (string literals and, since the fix, decorator strings); "
+         "C15_lex_string_echo / C15_lex_interp_echo — the echoed text of ANY string (and of the parts of an interpolated string) "
+         "is exactly one string token of the tokenizer model with that lexeme, for any Unicode classes; "
          "(2) C15_roundtrip_partial / C15_roundtrip_exact — over a Gallina model of the expression echo (typed_ast.rs "
-         "PrettyPrint for Expression, pretty_print_binop, with_parens, with_parens_liberal, call_syntax, temperature sugar), "
+         "PrettyPrint for Expression and StringPart, pretty_print_binop, with_parens, with_parens_liberal, call_syntax, temperature sugar), "
          "for EVERY printable typed expression of any depth the echoed tokens form a well-formed derivation tree of the "
          "documented grammar, hence by the C10 theorem the parser model accepts them and returns the tree they denote, "
          "which (without temperature sugar / digit separators) is exactly the tree the expression was elaborated from "
-         "(list and struct literals included); C15_fixed_point_partial — re-elaborating that tree in a session with the same "
+         "(list and struct literals included); C15_roundtrip_sep — with digit separators: the same up to the separators of the "
+         "literals; C15_fixed_point_partial — re-elaborating that tree in a session with the same "
          "unit / function names gives a typed tree with the same echo (expressions without sugar and negative literals); "
          "(3) C15_decorator_echo — the echo of EVERY decorator (any strings, any alias list with accepts annotations) is read "
          "back by the parser as that decorator; C15_definition_echo_partial — over a model of Statement::pretty_print for "
@@ -36,21 +39,22 @@ MANIFEST = dict(
          "NOT proved, checked on the implementation only (echo oracle: interpret, echo, re-interpret the echo in a clone of "
          "the session, compare acceptance, type, value to 1e-12, echo of the echo, and a probe expression): how the readable "
          "types of statements are computed (inference, generalisation), "
-         "interpolated strings, the number formatter, elaboration of the temperature sugar, type equality, and the "
+         "the number formatter, elaboration of the temperature sugar, type equality, and the "
          "fixed-point clause outside the proved class.",
     design_ref="DESIGN.md §6 C15; design/syntax.md",
     note="Trusted: Coq kernel + vm_compute; the hand port of the expression printer in Syntax/TypedPrinter.v (tied on every run by "
          "comparing the tokens of the implementation's echo with the model's print of the intended typed tree) and of "
          "escape/strip in Syntax/StrEsc.v (strip_and_escape is also exercised by the C10 correspondence); the C10 parser model; "
          "the generator's knowledge of how numbat elaborates its fully parenthesised sources. Eight echo defects were repaired by "
-         "fix: commits (phase 3: the echo of let / fn dropped the decorators, so aliases were lost), three are open findings (multi-name dimension types, implicit dimension of a base unit, product "
+         "fix: commits (phase 3: the echo of let / fn dropped the decorators, so aliases were lost), four are open findings (multi-name dimension types, implicit dimension of a base unit, sum re-association changing the display unit, product "
          "re-association not a fixed point).",
     technique="Coq proof (echo = concrete syntax tree; well-formedness by induction; reuse of the C10 round-trip theorem) + "
               "printer-model correspondence + metamorphic echo oracle on the real interpreter",
 )
 
-THEOREMS = ["C15_string_escape", "C15_roundtrip_partial", "C15_roundtrip_exact", "C15_fixed_point_partial",
-            "C15_decorator_echo", "C15_definition_echo_partial", "C15_reassociation_refuted"]
+THEOREMS = ["C15_string_escape", "C15_roundtrip_partial", "C15_roundtrip_exact", "C15_roundtrip_sep", "C15_fixed_point_partial",
+            "C15_lex_string_echo", "C15_lex_interp_echo", "C15_decorator_echo", "C15_definition_echo_partial",
+            "C15_reassociation_refuted"]
 ALLOWED_AXIOMS = []
 EXTRA_VO = ["theories/Syntax/ExecTyped.vo"]
 MODEL_IMPORTS = ["Syntax.Ast", "Syntax.StmtAst", "Syntax.TypedPrinter", "Syntax.TypeGrammar", "Syntax.DefEcho", "Syntax.ExecTyped"]
@@ -321,6 +325,17 @@ def known_for(case, r, what):
             mm = re.search(r"(?:^|\n)unit (\w+): (\w+)$", r["echo"])
             if mm and mm.group(2).lower() == mm.group(1).replace("_", "").lower():
                 return f
+        if m.get("kind") == "sum-on-the-right":
+            # a parenthesised sum on the right of `+` lost its parentheses; the two results have the same
+            # dimension and differ in the display unit only; and the interpreter itself says they are equal
+            t1 = re.match(r"^\S+ (.*?)\s+\[(\w+)\]$", r["v1"])
+            t2 = re.match(r"^\S+ (.*?)\s+\[(\w+)\]$", r["v2"])
+            if "+ (" in case["stmt"] and t1 and t2 and t1.group(2) == t2.group(2) and t1.group(1) != t2.group(1) \
+                    and _BINARY is not None:
+                q = dict(setup=case["setup"], stmt="(%s) == (%s)" % (case["stmt"], r["echo"]), probe="")
+                rr = run_echo(_BINARY, [q])[0]
+                if rr["status"] == "OK" and rr["v1"].startswith("true"):
+                    return f
         if m.get("kind") == "times-only":
             # the two echoes differ only in explicit vs. juxtaposed multiplication, and the values agree
             strip = lambda s: re.sub(r"\s+", " ", s.replace("×", " "))
@@ -329,8 +344,13 @@ def known_for(case, r, what):
     return None
 
 
+_BINARY = None
+
+
 def run(chk):
+    global _BINARY
     binary, _ = common.build_harness()
+    _BINARY = binary
     proved = chk.prove("Props.C15", THEOREMS, ["theories/Props/C15.vo"] + EXTRA_VO, allowed=ALLOWED_AXIOMS)
     chk.trusted += TRUSTED
     quick = chk.tier == "quick"
